@@ -53,6 +53,9 @@ func (e *Exec) resetPath() {
 	e.initDone = map[*ssa.Package]bool{}
 	e.inInit = false
 	e.pathVio = 0
+	e.envLog = nil
+	e.envResults = map[string]*Term{}
+	e.serverClosed = map[Ptr]bool{}
 	e.ctxTimeouts = nil
 	e.model = map[*Term]*Term{}
 	e.modelOK = true
